@@ -13,6 +13,10 @@ TraceInit == tid \in 1..N /\ l = 2
 TraceNext == /\ l <= Len(T) /\ l' = l + 1 /\ UNCHANGED tid
              /\ \/ E.ev = "OBS" /\ (E.negotiated => SemanticsMatch(T[1].tokens, E))
                 \/ E.ev = "SEL" /\ (E.accepted => DefinedAt(T[1].tokens, E.ver))
+                \* RS: a TLS 1.3 connection resumed from a ticket of ANOTHER suite with the same hash; CFG names the suite
+                \* of this connection's ServerHello: the accessors report it and keys derived later (KeyUpdate) fit it
+                \/ E.ev = "RS" /\ CipherNameOk(T[1].tokens, E.sessCipherName) /\ E.connCipherName = E.sessCipherName
+                                /\ E.resumed /\ E.dataOk
                 \* MC: a server holding several key pairs (default + virtual host) chose the suite named in CFG and
                 \* presented a certificate with key type E.certKey: suite and certificate must fit together
                 \/ E.ev = "MC" /\ DefinedAt(T[1].tokens, E.ver)
